@@ -131,6 +131,7 @@ fn literal() -> BoxedStrategy<MT> {
         2 => crate::gen::lexical(6).prop_map(MT::string),
         1 => (crate::gen::lexical(4), pick(crate::gen::tags())).prop_map(|(l, t)| MT::Lang(l, t)),
         1 => (crate::gen::lexical(4), pick(vec![xsd("integer"), xsd("decimal"), xsd("double"), xsd("boolean"), "http://x/ns#a.b".to_string()])).prop_map(|(l, d)| MT::Lit(l, d)),
+        1 => (prop_oneof![crate::gen::lexical(4), pick(NUM_LEX.to_vec()).prop_map(|s| s.to_string())], pick(crate::gen::near_miss_datatypes())).prop_map(|(l, d)| MT::Lit(l, d)),
     ]
     .boxed()
 }
@@ -1226,7 +1227,7 @@ fn domain(case: &Case) -> Result<(), String> {
     fn term(t: &MT, pos: char) -> Result<(), String> {
         match t {
             MT::Iri(i) => {
-                Iri::new(i.as_str()).map(|_| ()).map_err(|_| "iri".to_string())?;
+                Iri::new(i.as_str()).map(|_| ()).map_err(|_| if crate::c09::rfc::is_iri(i) { format!("REJECTED-iri {i:?}") } else { "iri".to_string() })?;
                 // sophia_iri is itself under test (C09) and accepts some invalid IRIs: also ask an independent validator
                 oxiri::Iri::parse(i.as_str()).map(|_| ()).map_err(|_| "iri-disputed".to_string())
             }
@@ -1250,7 +1251,7 @@ fn domain(case: &Case) -> Result<(), String> {
                 if pos != 'o' {
                     return Err("generalized".into());
                 }
-                sophia_api::term::LanguageTag::new(tag.as_str()).map(|_| ()).map_err(|_| "tag".to_string())
+                sophia_api::term::LanguageTag::new(tag.as_str()).map(|_| ()).map_err(|_| if crate::gen::bcp47_well_formed(tag) { format!("REJECTED-tag {tag:?}") } else { "tag".to_string() })
             }
             MT::Triple(tr) => {
                 if pos != 's' && pos != 'o' {
@@ -1417,6 +1418,13 @@ impl Check for C04 {
     }
     fn run(case: &Case, ctx: &mut Ctx) {
         if let Err(why) = domain(case) {
+            if let Some(what) = why.strip_prefix("REJECTED-") {
+                // valid per the independent recognisers (RFC 3987 / RFC 5646) but refused by the toolkit's validator:
+                // the property quantifies over all IRIs and tags, so this is not an exclusion
+                let kind = what.split(' ').next().unwrap_or("term");
+                ctx.fail(format!("domain/valid-{kind}-rejected"), format!("{what} is valid but rejected by the toolkit's own validator"));
+                return;
+            }
             ctx.class(format!("excluded/{why}"));
             return;
         }
